@@ -102,6 +102,9 @@ def bad_values(o, reg, rng):
         other = rng.choice([p for p in reg if p['type'] != t and p['type'] != 'str' or (p['type'] == 'enum' and p['choices'] != o['choices'])])
         out.append(('incompatible_ref', other['name']))
     out.append(('dangling_ref', 'no_such_option_q'))
+    if t != 'str':
+        out.append(('empty_quoted', '""'))        # an empty string is not a number / a word of the enumeration
+        out.append(('lone_prefix', '-'))
     return out
 
 
